@@ -1693,6 +1693,24 @@ class Interp:
         return out
 
     def e_SetComp(self, n, env):
+        g = n.generators
+        if (len(g) == 2 and isinstance(n.elt, ast.Name) and isinstance(g[1].target, ast.Name) and g[1].target.id == n.elt.id and not g[1].ifs):
+            # {x for v in <concrete> [if ...] for x in <symbolic sequence of v>}: the union of the sequences, kept symbolic (only membership is ever asked)
+            parts = []
+            symbolic = False
+
+            def collect(e):
+                nonlocal symbolic
+                inner = self.eval(g[1].iter, e)
+                if isinstance(inner, SymSeq):
+                    symbolic = True
+                    parts.append(("seq", inner))
+                else:
+                    parts.extend(("item", x) for x in self.iterate_all(inner))
+
+            self.comp(g[:1], 0, Env(parent=env, module=env.module), collect)
+            if symbolic:
+                return self.B.MixedSeq(parts)
         out = []
         self.comp(n.generators, 0, Env(parent=env, module=env.module), lambda e: out.append(self.eval(n.elt, e)))
         try:
